@@ -47,6 +47,12 @@ def run_case(case, eng, res):
 
     def body(path):
         c = dict(case, op="control_breeze_device")
+        if case.get("twice"):
+            # an earlier control call on the same client object (the device state may have changed since)
+            first = A.run_op(path, dict(c, simple_state=True), tag="first")
+            run = A.run_op(path, c, reply_plan=plan, api=first.api, dev=first.dev)
+            run.extra["first"] = first
+            return run
         return A.run_op(path, c, reply_plan=plan)
 
     n = 0
@@ -139,9 +145,17 @@ def run_case(case, eng, res):
                     checks.append(("swing_frame_carries_that_command", b_not(frame_carries(sf, cs["text"]))))
             elif any(c["fn"] == "build_swing_command" for c in calls):
                 checks.append(("no_separate_swing_command_unless_requested", True))
-        H.discharge(path, eng, res, checks, lambda lbl, m: {"what": "C16 %s" % lbl, "case": case,
-                                                             "replay": A.replay_spec(run, m, "C16", extra={"case": case})})
+        def mkviol(lbl, m):
+            rp = A.replay_spec(run, m, "C16", extra={"case": case})
+            if case.get("twice"):
+                f0 = A.replay_spec(run.extra["first"], m, None)
+                rp["before_ops"] = [{k: f0[k] for k in ("op", "args", "replies", "clock", "remote") if k in f0}]
+            return {"what": "C16 %s" % lbl, "case": case, "replay": rp}
+
+        H.discharge(path, eng, res, checks, mkviol)
         mw = path.witness()
+        if case.get("twice"):
+            continue
         res["witnesses"].append({"replay": A.replay_spec(run, mw, None),
                                  "expected": {"nframes": len(frames), "exception": type(run.result).__name__ if run.outcome == "exc" else None,
                                               "frames": [C.ev_seq(mw, f).hex() for f in frames],
@@ -194,6 +208,9 @@ def main(tier):
         for sep in (False, True):
             for upd in (False, True):
                 cases.append({"given": g, "separated": sep, "update": upd, "fault": None})
+    for g in ([1, 0, 0, 0, 0], [0, 0, 1, 0, 0]):
+        for upd in (False, True):
+            cases.append({"given": g, "separated": False, "update": upd, "fault": None, "twice": True})
     fault_sets = [[1, 1, 1, 1, 1], [0, 0, 0, 0, 1], [1, 0, 0, 0, 0]] if tier == "quick" else subsets
     for g in fault_sets:
         for sep in (False, True):
